@@ -92,6 +92,8 @@ class Flow:
             for sub in [e.func] + list(e.args) + [k.value for k in e.keywords]:
                 out += self.calls(sub)
             name = ast.unparse(e.func)
+            if ast.unparse(e) in self.contracts or ast.unparse(e) in self.effects:
+                name = ast.unparse(e)        # a contract for this exact call (e.g. ast.parse('') cannot fail)
             inl = self._inline_name(e)
             if inl:
                 if inl in self.stack:
